@@ -78,7 +78,7 @@ func (StoreCohScenario) GenCase(r *rand.Rand, prop string) interface{} {
 	c.Trans = pick(r, "none", "id", "custom")
 	c.Default = chance(r, 40)
 	c.Workers = pick(r, 1, 2, 4)
-	for _, p := range append(append([]string{}, storePoints...), "conn.Publish", "event", "rawEvent", "worker.beforeCb", "handleRequest", "runWith.beforeLock") {
+	for _, p := range append(append([]string{}, storePoints...), "conn.Publish", "event", "rawEvent", "worker.beforeCb", "handleRequest", "runWith.beforeLock", "auto.lock") {
 		if chance(r, 60) {
 			c.Optional = append(c.Optional, p)
 		}
